@@ -11,6 +11,23 @@ NAMES = ("a", "b", "c", "d", "e", "f")
 TRICKY_NAMES = ("a", "aa", "ab", "", " ", "b", "None", "a,b", "Down", "down", "0",
                 # characters that mean something to pattern matchers, formatters and parsers
                 "a[1]", "[a]", "*", "a*", "?", "a b", " a", "a ", "%s", "{}", "1/4", "a\\b", "'", "#")
+
+
+
+def _non_ascii_names():
+    """Action names outside ASCII (the repository's own fixtures use Greek letters) - only where text files
+    opened without an explicit encoding can carry them in this process."""
+    import locale
+    names = ("\u03b1", "\u00e9", "\u03b2\u2192")
+    try:
+        for x in names:
+            x.encode(locale.getpreferredencoding(False))
+        return names
+    except (UnicodeError, LookupError):
+        return ()
+
+
+TRICKY_NAMES = TRICKY_NAMES + _non_ascii_names()
 REWARD_POOL = (0, 0, 0, 1, 1, 2, 3, 5, 0.5, 7.25, 1000, 1e6, 1e-3, 2.5e7, -0.0, True, 1e20, 10 ** 25)
 GENERIC_REWARDS = (0, 1, 2.5, 3.25, 5 / 7, 11 / 7, 13 / 7, 1.4142135623730951, 0.3, 4.75, 6.125, 17 / 3)
 
